@@ -1125,7 +1125,8 @@ func (ctx *RenderContext) EvaluateExpression(node Node) (interface{}, error) {
 			return 0, nil
 		case "-":
 			if num, ok := ctx.toNumber(operand); ok {
-				return -num, nil
+				// 0 - num rather than -num: the negation of zero is zero, not the float -0
+				return 0 - num, nil
 			}
 			return 0, nil
 		default:
@@ -1503,7 +1504,8 @@ func (ctx *RenderContext) evaluateBinaryOp(operator string, left, right interfac
 	case "*":
 		if lNum, lok := ctx.toNumber(left); lok {
 			if rNum, rok := ctx.toNumber(right); rok {
-				return lNum * rNum, nil
+				// adding 0 turns the float -0 (0 * -1) into 0 and changes nothing else
+				return lNum*rNum + 0, nil
 			}
 		}
 
@@ -1513,7 +1515,7 @@ func (ctx *RenderContext) evaluateBinaryOp(operator string, left, right interfac
 				if rNum == 0 {
 					return nil, errors.New("division by zero")
 				}
-				return lNum / rNum, nil
+				return lNum/rNum + 0, nil
 			}
 		}
 
